@@ -168,7 +168,7 @@ Section Wrap.
     intros H. inversion H. exists i0, recs. auto.
   Qed.
 
-  (* constructed half: on every valid CARv1 the options admit, WrapV1 succeeds and the index holds
+  (* constructed half: on every valid CARv1 the options accept, WrapV1 succeeds and the index holds
      exactly one record per indexed section at the offset of its length varint *)
   Theorem wrap_layout_payload o roots bs i0 : wrap_ok o roots bs -> idx_new (x_codec o) = Some i0 ->
     let x := enc_payload roots bs in
